@@ -6,6 +6,10 @@ ALL = ['C%02d' % i for i in range(1, 21)]
 
 # id -> (engine, technique, level text, level note, design ref)
 CLAIMED = {
+ 'C08': ('E3-hypothesis', 'property-based testing with a real XML parser (expat) as well-formedness oracle and a format-vocabulary check as containment oracle, over hostile generated documents',
+         'Generated documents place hostile payloads (& < > quotes, attribute break-outs, comment/CDATA closers, entities, CriticMarkup and math delimiters, tabs, multi-byte text) in every text and attribute slot; OPML, FODT, ITMZ map data and every XML/XHTML member of ODT and EPUB packages must parse with expat, and every element/attribute name must belong to the format vocabulary (text that broke out would create foreign names). Held on everything generated; two known findings pinned by stored expectations are reported as such.',
+         'Trusted: expat, Python zipfile. Raw HTML and user-typed named entities are not generated (raw passthrough is outside the statement).',
+         'DESIGN.md section 5, C08'),
  'C09': ('E3-hypothesis', 'property-based testing with an independent archive reader (Python zipfile) and differential comparison of package members against the plain formats',
          'Generated documents with hostile metadata, headings, TOC and images (existing, missing, remote, titled, reference-defined) are packaged as EPUB, ODT, TextBundle and ITMZ with and without an asset directory; the archive must open, pass every CRC, have unique names and the required members in the required positions, its main document must equal the corresponding plain rendering modulo asset paths / TOC, and the asset table must be a bijection whose existing files are stored byte-identically. Held on everything generated.',
          'Trusted: Python zipfile/ElementTree/json. Assets whose file is missing or remote get a path but no member (accepted).',
